@@ -72,7 +72,9 @@ impl Tree {
     }
 }
 
-pub const MODULES: [&str; 3] = ["h1.test/repo", "h2.test/repo", "h1.test/alt"];
+/// Two modules on one host first, so that small configurations already
+/// have same-host sibling repositories.
+pub const MODULES: [&str; 3] = ["h1.test/repo", "h1.test/alt", "h2.test/repo"];
 
 /// IPv4 block of a node: (prefix, length).
 fn v4_block(ta: usize, path: &[usize]) -> (String, u8) {
@@ -124,7 +126,7 @@ fn asn_block(ta: usize, path: &[usize]) -> (u32, u32) {
     (base, size)
 }
 
-fn own_asn(ta: usize, path: &[usize], n: usize) -> u32 {
+pub fn own_asn(ta: usize, path: &[usize], n: usize) -> u32 {
     let (base, size) = asn_block(ta, path);
     if path.len() >= 3 { base + n as u32 } else { base + size / 4 * 3 + n as u32 }
 }
@@ -494,4 +496,57 @@ pub fn random_opts(rng: &mut Rng, allow_filters: bool) -> EngineOpts {
         if rng.chance(1, 6) { opts.limit_v6_len = Some(48) }
     }
     opts
+}
+
+
+/// A tree of the given shape: `(name, parent, index path, module, ta)` per
+/// CA (parents first); every CA publishes a ROA and an ASPA.
+pub fn shaped_tree(shape: &[(&str, Option<&str>, Vec<usize>, &str, usize)]) -> Tree {
+    let mut world = World::default();
+    let mut tas = Vec::new();
+    let mut nodes = Vec::new();
+    for (key, (name, parent, path, module, ta)) in shape.iter().enumerate() {
+        let cert_uri = match parent {
+            None => format!("rsync://{module}/ta{ta}.cer"),
+            Some(p) => format!("{}{}.cer", world.ca(p).expect("parent").repo, name),
+        };
+        let mut spec = ca(name, key, &format!("{module}/{name}/"), &cert_uri);
+        let mut v = version(1, T0 - HOUR, T0 + 7 * DAY);
+        v.objects.push(roa("o0.roa", 10, own_asn(*ta, path, 0), &v4_roa(*ta, path, 0, None), None));
+        let asn = own_asn(*ta, path, 1);
+        v.objects.push(aspa("o1.asa", 11, asn, &[asn + 100_000]));
+        spec.versions.push(v);
+        world.cas.push(spec);
+        match parent {
+            None => {
+                world.tals.push(tal(&format!("tal{ta}"), key, &[&cert_uri]));
+                tas.push(ta_file(&cert_uri, name, key, node_res(*ta, &[])));
+            }
+            Some(p) => {
+                let j = *path.last().expect("path");
+                world.ca_mut(p).unwrap().versions[0].objects.push(
+                    child_cert(&format!("{name}.cer"), 500 + j as u64, name, node_res(*ta, path))
+                );
+            }
+        }
+        nodes.push(Node {
+            name: name.to_string(), parent: parent.map(|p| p.to_string()), depth: path.len() + 1,
+            module: module.to_string(), path: path.clone(), ta: *ta,
+        });
+    }
+    Tree { world, tas, nodes }
+}
+
+/// Gives version `v` of every CA a ROA that no other version has, so that a
+/// newer version is visible in the payload.
+pub fn bump_payload(tree: &mut Tree, v: usize) {
+    let nodes = tree.nodes.clone();
+    for node in nodes {
+        let Some(pv) = tree.world.ca_mut(&node.name).and_then(|c| c.versions.get_mut(v)) else { continue };
+        let asn = 65_300 + (pv.ee_serial % 97) as u32 + 100 * v as u32;
+        pv.objects.push(roa(
+            &format!("n{v}.roa"), 60 + v as u64, asn + node.name.len() as u32 * 7 + node.path.iter().sum::<usize>() as u32,
+            &v4_roa(node.ta, &node.path, 13, None), None
+        ));
+    }
 }
